@@ -1320,13 +1320,6 @@ fn rebuild_value(
             builder.token(k.into(), &t);
         }
     } else {
-        // Insert a leading newline if the value is multi-line and immediate_empty_line is set
-        if immediate_empty_line && has_newline {
-            builder.token(NEWLINE.into(), "\n");
-            last_was_newline = true;
-        } else {
-            builder.token(WHITESPACE.into(), " ");
-        }
         // Strip leading whitespace and newlines
         while let Some((k, _t)) = tokens.first() {
             if *k == NEWLINE || *k == WHITESPACE {
@@ -1334,6 +1327,18 @@ fn rebuild_value(
             } else {
                 break;
             }
+        }
+        // A first line that starts with '#' stays on the line of the field name (after an
+        // indent it would be read as a comment), and a comment stays on a line of its own
+        // (on the line of the field name it would be read as part of the value)
+        let keep_first = matches!(tokens.first(), Some((VALUE, t)) if t.starts_with('#'));
+        let comment_first = matches!(tokens.first(), Some((COMMENT, _)));
+        // Insert a leading newline if the value is multi-line and immediate_empty_line is set
+        if (immediate_empty_line && has_newline && !keep_first) || comment_first {
+            builder.token(NEWLINE.into(), "\n");
+            last_was_newline = true;
+        } else {
+            builder.token(WHITESPACE.into(), " ");
         }
         for (k, t) in tokens {
             if last_was_newline {
